@@ -90,7 +90,7 @@ func WorkerMain(t Target) {
 		Exec1(t)
 		os.Exit(0)
 	case "genbatch":
-		o := GenBatch(t, *prop, *seed, *to, *file)
+		o := GenBatch(t, *prop, *seed, *to, *file, *from)
 		writeJSON(*out, o)
 		os.Exit(0)
 	case "genone":
